@@ -27,7 +27,8 @@ PROPS = {
              "Closed loop: 4-30 (thorough 50) steps over <= 4 (6) pods of create / ADD (optionally reporting the pod IP) / delete object / "
              "phase Succeeded|Failed / DEL (current, superseded or unknown container id) / flush (may fail) / flushadd (the reporter tick runs, a CNI ADD for a pod completes "
              "while the tick's write to the API server is in flight, and that write fails) / agent GC (PodExist truthful, failing, "
-             "stale-true; write may fail) / 5-minute job / reconcile (forced GC, full sync, status-write failure or conflict, cloud faults, or the next assign executed but its answer lost - the cloud "
+             "stale-true; write may fail) / 5-minute job / reconcile (forced GC, full sync, status-write failure or conflict, a read of the Node CR from a lagging cache - the object as it was "
+             "before the controller's own last write, only directly after such a write; the store enforces resourceVersion conflicts - cloud faults, or the next assign executed but its answer lost - the cloud "
              "stub then replays that answer to the next assign with the same interface and count, as the real API does for a reused client token; "
              "usually followed by a full sync) / "
              "agent restart / controller restart, on an IPv4, dual-stack or IPv6-only pool, plus bindings that pre-exist the history with or without a recorded UID and running pods that report "
@@ -67,6 +68,7 @@ PROPS = {
             dict(unit="c03_daemon", test="TestVerifC03ClosedLoop", quick=4000, thorough=300000,
                  timeout_thorough=3000),
             dict(unit="c03_daemon", test="TestVerifC03KnownWitnessReAdd", quick=1, thorough=1, shards=1),
+            dict(unit="c03_daemon", test="TestVerifC03KnownWitnessStaleUnassign", quick=1, thorough=1, shards=1),
         ],
     ),
 }
